@@ -21,9 +21,10 @@ THEOREMS = [
     "Typedpy.C16.stub_method_text_roundtrip",
     "Typedpy.C16.stub_init_dupfree_iff",
     "Typedpy.C16.stub_helper_dupfree_iff",
-    "Typedpy.C16.name_clash_counterexample",
+    "Typedpy.C16.fixed_name_clash_example", "Typedpy.C16.stub_methods_dupfree",
     "Typedpy.C16.stub_text_example",
     "Typedpy.C16.parse_rejects_examples",
+    "Typedpy.C16.type_info_wf", "Typedpy.C16.type_info_example",
     "Typedpy.C16.lex_render_roundtrip", "Typedpy.C16.stub_init_text_accepted",
     "Typedpy.C16.stub_helper_text_accepted", "Typedpy.C16.stub_method_text_accepted",
     "Typedpy.C16.stub_kw_agree",
@@ -41,9 +42,9 @@ THEOREMS = [
     "Typedpy.C16.stubD_kw_iff",
     "Typedpy.C16.stubD_sigkw_agree", "Typedpy.C16.stubD_sigkw_is_define",
     "Typedpy.C16.stubD_mandatory_first",
-    "Typedpy.C16.stubD_init_text_parses",
+    "Typedpy.C16.stubD_init_text_parses", "Typedpy.C16.stubD_helper_text_parses", "Typedpy.C16.stubD_init_text_accepted",
     "Typedpy.C16.stubD_diamond_example",
-    "Typedpy.C16.diamond_names_counterexample",
+    "Typedpy.C16.fixed_diamond_names_example", "Typedpy.C16.stubD_sig_names_in_stub_reachable",
 ]
 RULE = ("generated modules: 2-7 Structure classes (annotation and assignment style; inheritance from 1-2 earlier "
         "classes, Partial/Omit/Pick/Extend/AllFieldsRequired bases, ImmutableStructure; _required/_optional/"
@@ -66,7 +67,7 @@ RULE = ("generated modules: 2-7 Structure classes (annotation and assignment sty
 ASSUMPTIONS = [
     "partial property: file I/O, import resolution, module constants / enum bodies / import lines and the character-level lexer are decided or corresponded by running CPython (ast.parse, compile, tokenize), not proved",
     "the recogniser models the token / expression subset the generator writes (names, subscriptions, list displays, literals, `...`; no operators, calls, slices, starred items, parentheses inside parameter lists)",
-    "how a Field becomes an annotation (get_type_info) is not modelled: annotation ASTs are read off the real get_type_info per case and universally quantified in the theorems",
+    "of get_type_info only the nesting combinators (Optional / Union / dict[..]) are modelled; every other field kind is a leaf whose annotation AST is read off the real get_type_info per case and universally quantified in the theorems",
     "tree-shaped hierarchies: theorems by induction over the whole hierarchy (Sem/Stub.lean); shared ancestors / diamonds: one-step theorems over Sem/Define.lean worlds (Sem/StubDefine.lean)",
     "classes that inherit a user-written __init__: the stub is compared with inspect.signature(cls) only",
     "TypedPyDefaults.additional_properties_default does not change between the definition of a base and of its subclasses",
@@ -309,6 +310,9 @@ def judge(case, impl, model):
             if not ok_shape:
                 fails.append((f"helper-shape:{mname}", f"{name}: {h}"))
             hn = [n for n, _ in fields]
+            rt_all = rt_names
+            if hk != "shallowClone":    # since the repair of parameter-name-clash: what the fixed parameters shadow is left out
+                rt_names = rt_all - {"source_object", "ignore_props"}
             if set(hn) != rt_names and dc is not None and not dc["namesCovered"] and ti in nontree:
                 fails.append(("names-mismatch:constant-shadowed-in-diamond",
                               f"{name}.{mname}: field keywords {sorted(hn)} != inspect.signature names {sorted(rt_names)}"))
@@ -318,6 +322,7 @@ def judge(case, impl, model):
             if not all(d for _, d in fields):
                 fails.append((f"helper-default-missing:{mname}",
                               f"{name}: {[n for n, d in fields if not d]} have no default"))
+            rt_names = rt_all
             if admits is not None and h["kw"] != admits and case["apd"] != case["dflt"] and not mc.get("addlDeclared", True):
                 pass
             elif admits is not None and h["kw"] != admits:
